@@ -9,7 +9,7 @@ def check(run):
     run.lean()
     rng = run.rng
     quick = run.tier == "quick"
-    run.rule = ("random sessions over buffer_*/write_block/rotate_output(name|fd, export 0/1)/add_block_parameters/set_active, "
+    run.rule = ("random sessions over buffer_*/write_block/rotate_output(new name|name of the open output|fd, export 0/1)/add_block_parameters/set_active, "
                 "compression none/gzip/xz; per output: zero bytes if no block, else complete file whose preamble holds every "
                 "parameter set its blocks use and whose records are the reference's; distinct by session text; non-trivial = has a rotation")
     run.trusted += ["harness/file.cpp", "Driver/Exm.lean, Spec/Cdns.lean", "tools/refexp.py", "python gzip/lzma"]
@@ -18,7 +18,7 @@ def check(run):
     for i in range(n):
         s = refexp.gen_session(rng, rotations=True, late_bps=True, compress=rng.choice(["n", "n", "g", "x"]),
                                target=rng.choice(["fd", "nm"]), maxes=[0, 1, 2, 3, 5], nops=rng.randrange(2, 40),
-                               end_flush=rng.random() < 0.8)
+                               end_flush=rng.random() < 0.8, same_name_p=0.25)
         sessions.append(s)
     # consecutive rotations with nothing written
     for i in range(50):
@@ -36,6 +36,7 @@ def check(run):
         nrot = s[0].count(" R:")
         run.case(s[0][:300], nrot > 0, key=s[0])
         run.count("rotations:%d" % min(nrot, 5)); run.count("compression:" + r["comp"])
+        run.count("rotations to the name of the open output", s[0].count(" R:same:"))
         bad = E.judge_returns(s, r) + E.judge_files(s, r)
         E.record_failures(run, s, bad, seen)
         if not bad and m is not None:
